@@ -71,7 +71,7 @@ func unitC11crypto(e common.Env, p *common.Part) {
 		}
 		for _, x := range nts {
 			calls := x.n - 1 + 2 // shares to n-1 peers, one commitment broadcast, one reveal broadcast
-			seeds := e.Pick(2, 5)
+			seeds := e.Pick(2, 25)
 			for s := 0; s < seeds; s++ {
 				for pa := 1; pa <= x.n; pa++ {
 					for k := 0; k <= calls; k++ {
